@@ -43,7 +43,7 @@ def cases(tier):
             for pat in itertools.product((0, 1, 2), repeat=n):
                 out.append(dict(kind="e2e", n=n, m=m, pat=list(pat), dec=True))
     for (n, m) in ([(3, 3), (2, 2)] if tier == "quick" else [(3, 3), (2, 2), (4, 4), (4, 3)]):
-        for variant in ("tz", "zt", "dask", "centres", "xarray-target"):
+        for variant in ("tz", "zt", "dask", "centres", "xarray-target", "xarray-target-dim"):
             for dec in (False, True):
                 out.append(dict(kind="wrap", n=n, m=m, variant=variant, dec=dec))
     out.append(dict(kind="standin"))
@@ -255,7 +255,7 @@ def _case_wrap(W, n, m, variant, dec):
                             target_data=xr.DataArray(t_, dims=["zo"], name="theta"), method="conservative")
         single.append(list(r1.data))
     b_inc = b[::-1] if dec else b
-    if variant in ("tz", "zt", "dask", "xarray-target"):
+    if variant in ("tz", "zt", "dask", "xarray-target", "xarray-target-dim"):
         pda = xr.DataArray(phi, dims=["t", "zc"], name="phi")
         tda = xr.DataArray(th, dims=["t", "zo"], name="theta")
         target = b
@@ -263,10 +263,15 @@ def _case_wrap(W, n, m, variant, dec):
             pda, tda = pda.transpose("zc", "t"), tda.transpose("zo", "t")
         if variant == "dask":
             pda, tda = dasked(pda, {"t": 1}), dasked(tda, {"t": 1})
+        kwt = {}
         if variant == "xarray-target":
             target = xr.DataArray(b, dims=["rho"], coords={"rho": np.arange(m + 1)})
-        r = grid.transform(pda, "Z", target, target_data=tda, method="conservative")
-        newdim = "rho" if variant == "xarray-target" else "theta"
+        if variant == "xarray-target-dim":
+            # labels of the target differ from its values; the dimension is also named explicitly
+            target = xr.DataArray(b, dims=["rho"], coords={"rho": np.arange(m + 1) * 10.0 + 100.0})
+            kwt["target_dim"] = "rho"
+        r = grid.transform(pda, "Z", target, target_data=tda, method="conservative", **kwt)
+        newdim = "rho" if variant.startswith("xarray-target") else "theta"
         W.require("wrap:dims:" + variant, set(r.dims) == {"t", newdim} and r.sizes[newdim] == m, "%s %s" % (r.dims, dict(r.sizes)))
         if variant == "dask":
             W.require("wrap:lazy", hasattr(r.data, "dask"), "result is not lazy")
